@@ -212,3 +212,13 @@ package layout
 //@   ensures conserved: linesum(res, len(res)) == linesum(lines, len(lines)) && len(res) == len(lines)
 //@   loop 0:
 //@     invariant len(result) == len(lines) && linesum(result, len(result)) == linesum(lines, len(lines))
+
+// ---- C11: a page counts as character-level only when its fragments average at most two runes ----
+// (on a character-level page the margin bands are filtered by position alone, so a wrong answer here deletes
+// marginal text that does not repeat)
+//@ spec rec prefix func runesum(frs []text.TextFragment, n int) int = n <= 0 ? 0 : runesum(frs, n - 1) + runecount(frs[n-1].Text)
+//@ func isCharacterLevel results (r)
+//@   property C11
+//@   ensures average_at_most_two_runes: r <==> (len(fragments) > 0 && runesum(fragments, len(fragments)) <= 2 * len(fragments))
+//@   loop 0:
+//@     invariant totalChars == runesum(fragments, $i)
